@@ -3,8 +3,11 @@ predecessor is never served; the same bytes cut into two reads are both served.
 
 Run:  cd /tmp/wa_C06 && PYTHONPATH=/tmp/wa_C06 /venv/bin/python _finding/1/demo.py
 """
+import os as _os
+_TREE_UNDER_TEST = _os.environ.get("GVERIF_REPO") or _os.getcwd()   # the checkout under test (was the auditing agent's scratch worktree)
+
 import sys
-sys.path.insert(0, "/tmp/wa_C06")
+sys.path.insert(0, _TREE_UNDER_TEST)
 
 import os
 import re
@@ -15,7 +18,7 @@ import subprocess
 import tempfile
 import time
 
-ROOT = "/tmp/wa_C06"
+ROOT = _TREE_UNDER_TEST
 KEEPALIVE = 2
 
 APP = '''
